@@ -184,14 +184,30 @@ class Runner:
     def w(self, a, label):
         return isp.spy(a, label) if self.py else a
 
-    def call(self, kernel, input_class, fn):
+    def call(self, kernel, input_class, fn, public=None):
         ctx = self.ctx
         isp.kernel(kernel)
         ctx.case()
         ctx.count(f"extreme_calls[{ctx.engine}]")
         ctx.count(f"kernel[{kernel}]")
         try:
-            fn()
+            try:
+                fn()
+            except TypeError as e:
+                # a private kernel called with the argument list it has on
+                # the pinned tree: if another tree gives it another private
+                # signature that is not this property's business - drive the
+                # public entry point instead
+                msg = str(e)
+                if not any(t in msg for t in (
+                        "positional argument", "too many arguments",
+                        "not enough arguments", "missing", "takes ")):
+                    raise
+                ctx.count("private_kernel_signature_differs")
+                ctx.note(f"{kernel}: private signature differs ({msg[:80]})")
+                if public is None:
+                    return
+                public()
         except BaseException as e:  # noqa
             if is_oob(e):
                 tb = traceback.format_exc()
@@ -258,7 +274,9 @@ def binpack_corpus(r: Runner, rng):
             perm = wb.gen_perm(rng, desc, perm_kind)
             x = wb.x_array(perm, inst)
             r.call("ibl1._decode", cls, lambda: setattr(y, "n_bins", e1._decode(
-                r.w(x, "x"), r.w(y, "y"), r.w(inst, "instance"), W, H)))
+                r.w(x, "x"), r.w(y, "y"), r.w(inst, "instance"), W, H)),
+                public=lambda: e1.ImprovedBottomLeftEncoding1(inst).decode(
+                    r.w(x, "x"), r.w(y, "y")))
             enc2 = e2.ImprovedBottomLeftEncoding2(inst)
             bs = _priv(enc2, "ImprovedBottomLeftEncoding2", "bin_starts",
                        lambda: np.empty(inst.n_items, inst.dtype))
@@ -266,7 +284,8 @@ def binpack_corpus(r: Runner, rng):
                        lambda: np.empty(inst.n_items, inst.dtype))
             r.call("ibl2._decode", cls, lambda: setattr(y, "n_bins", e2._decode(
                 r.w(x, "x"), r.w(y, "y"), r.w(inst, "instance"), W, H,
-                r.w(bs, "bin_starts"), r.w(be, "bin_ends"))))
+                r.w(bs, "bin_starts"), r.w(be, "bin_ends"))),
+                public=lambda: enc2.decode(r.w(x, "x"), r.w(y, "y")))
             # objectives on what was decoded and on "every item its own bin"
             packs = [("decoded", np.array(y))]
             own = np.array(y)
